@@ -95,7 +95,7 @@ def _short(o):
 def run(ctx):
     quick = ctx.tier == "quick"
     invs = ["Equivalent", "Aligned", "PassThrough", "ContigSound", "Emit"]
-    consts = {"NRec": tk.NREC, "Fields": ["f1", "f2"], "MaxPool": 3, "AsBuilt": False, "Sels": SELS, "Ops": ["len", "tolist", "write", "get", "replace", "index", "concat", "row"]}
+    consts = {"NRec": tk.NREC, "Fields": ["f1", "f2"], "MaxPool": 3, "AsBuilt": False, "Sels": SELS, "Ops": ["len", "tolist", "write", "get", "replace", "assign", "index", "concat", "row"]}
     vectors = []
     for chunked in (False, True):
         depth = (4 if not chunked else 3) if quick else (5 if not chunked else 4)
